@@ -7,11 +7,12 @@ from .rules.refusals import rule_assert, rule_kwsig, rule_raise, rule_regkey
 from .rules.truthy import rule_truthy
 from .rules.purity import rule_pure, rule_args, rule_global, rule_memo
 from .rules.token import rule_token
-from .rules.graph import rule_keys, rule_order, rule_cover, rule_axiskey
+from .rules.graph import rule_keys, rule_order, rule_cover, rule_axiskey, rule_contig
 from .rules import misc as M
 from .rules.lazyrule import rule_lazy
 from .rules.pickle_nondet import rule_pickle, rule_nondet, rule_fillflow
 from .rules import pairs as PR
+from .rules import codes as CD
 from .rules.wiring import rule_passthrough_sort, rule_passthrough_engine, rule_counter, rule_globalidx, rule_sorted, rule_infresolve
 
 PROPERTIES = {
@@ -26,14 +27,14 @@ PROPERTIES = {
         "explanation": "R-DISPATCH over (kernel, engine) resolutions and engine-module bindings; R-STABLE over argsort sites; R-PASSTHROUGH[engine]: every stage runs with the engine the user chose",
     },
     "C05": {
-        "rules": [rule_truthy, rule_fillflow, rule_parallel, rule_counter],
+        "rules": [rule_truthy, rule_fillflow, rule_parallel, rule_counter, CD.rule_identitycodes, CD.rule_labelvalue],
         "thorough": [selftest],
         "technique": "def-use fill-family + boolean-context scan; counter-wiring table check (custom AST checker)",
         "level_text": "Static, all-paths: no fill-value-typed expression (nor the optional min_count) is ever coerced to bool, so falsy "
                       "fills (0, 0.0, False) cannot be confused with 'not given'; the validity counter that implements min_count extends "
                       "every parallel tuple; the fill written by the finalizer's mask, by its reindex and by the final reindex "
                       "derives only from the user's fill_value. Slot order, mask placement per plan and min_count arithmetic are not decided.",
-        "explanation": "R-TRUTHY over every boolean context of every function; R-FILLFLOW over the fill sinks; R-PARALLEL over the min_count branch",
+        "explanation": "R-TRUTHY over every boolean context of every function; R-FILLFLOW over the fill sinks; R-PARALLEL over the min_count branch; R-IDENTITYCODES: labels are their own codes only for integer labels and the index 0..n-1, both ends masked",
     },
     "C12": {
         "rules": [rule_lazy],
@@ -65,7 +66,7 @@ PROPERTIES = {
         "explanation": "R-ARGS, R-GLOBAL, R-MEMO, R-TOKEN",
     },
     "C19": {
-        "rules": [rule_raise, rule_defassign, rule_regkey, rule_kwsig, rule_assert],
+        "rules": [rule_raise, rule_defassign, rule_regkey, rule_kwsig, rule_assert, CD.rule_codewidth],
         "thorough": [selftest],
         "technique": "CFG definite-assignment with guard correlation; call-graph reachability of raises; keyword/signature agreement of "
                      "every resolved call and partial; assert triage table",
@@ -74,7 +75,7 @@ PROPERTIES = {
                       "user-keyed registry lookup that is not converted, a call or partial whose keywords/arity the selected callee "
                       "does not accept (TypeError inside a task) -- and every assert is triaged (user-reachable ones are findings). "
                       "Completeness of up-front validation and 'auto works wherever map-reduce does' are not decided.",
-        "explanation": "R-RAISE, R-DEFASSIGN, R-REGKEY, R-KWSIG, R-ASSERT",
+        "explanation": "R-RAISE, R-DEFASSIGN, R-REGKEY, R-KWSIG, R-ASSERT, R-CODEWIDTH (sentinel stores cannot overflow a narrow code dtype)",
     },
     "C02": {
         "rules": [M.rule_plan, rule_algebra, rule_cover, PR.rule_pairs_dummyaxis],
@@ -96,21 +97,21 @@ PROPERTIES = {
         "explanation": "R-ALGEBRA (arg rows), R-ORDER, R-STABLE, R-KEYS",
     },
     "C07": {
-        "rules": [M.rule_sentinel_ravel, PR.rule_pairs_groupers],
+        "rules": [M.rule_sentinel_ravel, PR.rule_pairs_groupers, CD.rule_codewidth, CD.rule_identitycodes, CD.rule_labelvalue],
         "thorough": [selftest],
         "technique": "CFG must-pass-through of a masked sentinel restore",
         "level_text": "Static, all-paths: after the per-grouper codes are combined arithmetically, every path to return restores the "
                       "missing-label code under a mask computed from the input codes. pandas.cut edge semantics and shapes are not decided.",
-        "explanation": "R-SENTINEL on _ravel_factorized",
+        "explanation": "R-SENTINEL on _ravel_factorized; R-PAIRS[groupers]; R-CODEWIDTH: every code array is an intp producer so code arithmetic cannot wrap; R-IDENTITYCODES",
     },
     "C08": {
-        "rules": [M.rule_sentinel_offset, M.rule_copermute, PR.rule_pairs_collapse, PR.rule_pairs_outinds],
+        "rules": [M.rule_sentinel_offset, M.rule_copermute, PR.rule_pairs_collapse, PR.rule_pairs_outinds, CD.rule_codewidth],
         "thorough": [selftest],
         "technique": "CFG must-pass-through of a masked sentinel restore; permutation agreement of labels and values",
         "level_text": "Static, all-paths: after per-slice offsetting of codes, every path to return restores the missing-label code under a "
                       "mask computed from the input codes; the labels' and the values' reduced axes are moved to the end by the same "
                       "permutation. Offsets and per-slice values are not decided.",
-        "explanation": "R-SENTINEL on offset_labels, R-COPERMUTE",
+        "explanation": "R-SENTINEL on offset_labels, R-COPERMUTE, R-PAIRS, R-CODEWIDTH (per-slice offsets are added to intp codes)",
     },
     "C10": {
         "rules": [M.rule_scantable, rule_stable, M.rule_promote],
@@ -121,13 +122,14 @@ PROPERTIES = {
         "explanation": "R-SCANTABLE, R-STABLE, R-PROMOTE",
     },
     "C11": {
-        "rules": [M.rule_dtypetable, M.rule_finalcast, M.rule_promote, PR.rule_pairs_outinds],
+        "rules": [M.rule_dtypetable, M.rule_finalcast, M.rule_promote, PR.rule_pairs_outinds, M.rule_reindexdtype],
         "thorough": [selftest],
         "technique": "dtype convention table; CFG must-pass-through of the final cast; access-path agreement of announced meta",
         "level_text": "Static, all-paths: blueprint dtype declarations follow the NumPy convention table, every path of the finalizer casts "
-                      "to the announced slot, the engine dispatch result is cast per kernel, and the lazy meta is built from the same slot. "
+                      "to the announced slot, the engine dispatch result is cast per kernel, the lazy meta is built from the same slot, and the "
+                      "re-indexing that runs after the cast makes no dtype decision of its own beyond NA promotion. "
                       "Promotion arithmetic and announced-vs-computed chunk sizes are not decided.",
-        "explanation": "R-DTYPETABLE, R-FINALCAST, R-PROMOTE",
+        "explanation": "R-DTYPETABLE, R-FINALCAST, R-PROMOTE, R-PAIRS[outinds], R-REINDEXDTYPE",
     },
     "C16": {
         "rules": [M.rule_coindex, rule_passthrough_sort, rule_sorted],
@@ -157,16 +159,16 @@ PROPERTIES = {
         "explanation": "R-COLLIDE, R-CASTORDER, R-INFRESOLVE, R-VARSHIFT",
     },
     "C03": {
-        "rules": [rule_keys, rule_order, rule_axiskey, rule_global, rule_algebra],
+        "rules": [rule_keys, rule_order, rule_axiskey, rule_global, rule_algebra, rule_contig],
         "thorough": [selftest],
         "technique": "def-use closure of graph keys over enclosing loops; taint (unordered source -> block selection) with sanitizers; "
                      "module-state scan; associativity column of the monoid table",
         "level_text": "Static, all-paths: the premises of 'a DAG of pure tasks is schedule-independent' for the hand-written tree: every "
                       "hand-written key is injective in all enclosing loop variables (levels, cohorts, partitions), block ids never reach a "
-                      "block selection through an unordered container, no reachable code touches module state, and every combine "
-                      "operator is a row of the (associative) monoid table. Floating-point re-association, the tree-depth arithmetic and "
+                      "block selection through an unordered container, every tree node brackets a contiguous ascending run of blocks, no reachable code "
+                      "touches module state, and every combine operator is a row of the (associative) monoid table. Floating-point re-association, the tree-depth arithmetic and "
                       "actual schedules are not decided.",
-        "explanation": "R-KEYS, R-ORDER, R-AXISKEY, R-GLOBAL, R-ALGEBRA",
+        "explanation": "R-KEYS, R-ORDER, R-AXISKEY, R-GLOBAL, R-ALGEBRA, R-CONTIG",
     },
     "C09": {
         "rules": [rule_cover, rule_keys, rule_axiskey, rule_token],
